@@ -58,6 +58,64 @@ CLAIMS = {
              "check: no harness can go through c2mir_init and the AST/symbol-table heap is beyond symbolic execution.  CBMC models long double as a "
              "128-bit IEEE format; pointer paths of cast_value are not encoded; float->int out of range assumed away.",
         technique=TECH),
+    "C05": dict(
+        level="model_checking", design="DESIGN.md section 3, C05 and section 8",
+        text="For every prototype of an enumerated configuration space the machine code emitted by the REAL _MIR_get_ff_call (interpreter FFI leg, fed "
+             "by the real narrowing/widening code of call()) and by the REAL generator for a call instruction (machinize_call leg, -O2 quick / -O0..-O3 "
+             "thorough) is lifted to C (engine E3) and executed symbolically: at the call instruction every argument register / stack slot, %al, the "
+             "stack alignment, copied block bytes, and after return every result register are compared with a System V psABI oracle for ALL argument "
+             "and result values.",
+        note="Prototypes: all sequences of <= 3 (quick) / 4 (thorough) arguments over {i8..u64,p,f,d,ld,blk0-4,rblk} with 0-2 results (pruned by "
+             "equivalence class of narrow types), plus seeded long ones up to 20 arguments, each with and without '...'.  Trusted: GNU objdump (decoder), "
+             "tools/x86lift.py + lift_rt.h (validated natively against the real bytes on 18.6 M states), ref/sysv_call_ref.h, CBMC (long double = "
+             "binary128, only moved).  > 20 arguments, Windows ABI, other targets outside.",
+        technique=TECH + "; machine code lifted to C (translation of the real generated bytes)"),
+    "C06": dict(
+        level="model_checking", design="DESIGN.md section 3, C06 and section 8",
+        text="For every signature of the enumerated space a MIR function that observes all its parameters, keeps 0/8/20 values live across an external "
+             "call and performs a constant or variable alloca is generated by the real generator, lifted (E3) and run from a symbolic entry state "
+             "(arguments placed by the psABI oracle, callee-saved registers, rsp, stack words symbolic): parameter values, result registers, "
+             "callee-saved registers and rsp on return, 16-byte alignment at inner calls and alloca validity are decided for all values.  Variadic "
+             "consumers (va_start + va_arg of i64/d/ld through the real builtin) for 0..9 named ints x 0..9 named doubles and named blocks; the "
+             "interpreter shim's real bytes are checked to build a va_list that decodes to the argument values and to return results in the right registers.",
+        note="Quick: -O2; thorough adds -O0/-O1/-O3.  va_block_arg not covered; interp() itself is a stub behind the shim (its decoding is represented by "
+             "the psABI va_arg algorithm); MXCSR/x87 control words are plain fields only ldmxcsr/fldcw write; trusted base as C05.",
+        technique=TECH + "; machine code lifted to C"),
+    "C03": dict(
+        level="model_checking", design="DESIGN.md section 3, C03 and section 8",
+        text="Transparency of every trampoline that implements the execution interfaces (thunk short/long, wrapper + wrapper_end, bb_thunk, bb_wrapper, "
+             "interpreter shim): the real bytes are lifted (E3) and run from a fully symbolic machine state with an arbitrary ABI-conforming hook; "
+             "argument registers, callee-saved registers, rsp and caller stack bytes arrive unchanged at the hook's target, the hook receives the "
+             "documented arguments with an aligned stack.  Thunk retargeting arithmetic (_MIR_redirect_thunk, _MIR_get_thunk_addr, "
+             "_MIR_replace_bb_thunk): for every pair of addresses the written pattern decodes to a jump to exactly `to`.",
+        note="NOT claimed: program-level equivalence of lazily generated basic-block versions (code exists only after native execution) and of "
+             "eager/lazy function generation beyond what C01 decides for generate_func_code's output; bb wrapper: xmm8-15/flags not asserted.  "
+             "Addresses < 2^47.  Trusted base as C05.",
+        technique=TECH + "; machine code lifted to C"),
+    "C17": dict(
+        level="model_checking", design="DESIGN.md section 3, C17 and section 8",
+        text="Contracts at the allocation choke points, decided for arbitrary states / short histories: VARR expand/tailor/push/destroy and HTAB "
+             "create/do/clear/destroy against a ledger allocator (realloc is told the block's true old size, no stale block is used, every block is "
+             "freed exactly once, free_func once per dropped element); the code-holder functions (publish, publish_by_addr, change_code, "
+             "update_code_arr, _MIR_set_code, code_finish) against a checking MIR_code_alloc_t: every byte written lies in a mapped holder on a page "
+             "that is writable at that moment, every write-enable is followed by an exec-enable before the operation returns, published regions are "
+             "16-aligned and disjoint, code_finish unmaps every holder once with its mapped length.",
+        note="The whole-history statement 'after the finish calls every block has been returned' over ~400 allocation sites is NOT claimed (needs "
+             "MIR_init; beyond the engine).  Code memory is an integer address range with a shadow array written by the observed memcpy; page size 64; "
+             "<= 1 (quick) / 2-3 (thorough) code operations with lengths 0..48.",
+        technique=TECH + "; checking allocator stubs"),
+    "C08": dict(
+        level="model_checking", design="DESIGN.md section 3, C08 and section 8",
+        text="Bounded model checking of the real set_type_layout / update_field_layout / type_size / type_align (c2mir.c) and classify_arg / "
+             "return-by-address / block-type selection (cx86_64-ABI-code.c) on hand-built type graphs against an oracle written from the System V "
+             "psABI and gcc's bit-field rule (ref/sysv_ref.h; itself cross-checked natively against gcc on 16000 generated declarations, and in "
+             "setup_cmd on 400): sizeof, _Alignof, every member's byte and bit position, per-eightbyte class, register/memory decision.",
+        note="Declaration SHAPE (struct/union, member categories, array or not) is concrete per obligation; which type of a size class, bit-field "
+             "widths 0..bits(type), named/unnamed, array lengths 1..3, registers already used are symbolic.  <= 3 (quick) / 4 (thorough) members, "
+             "nesting <= 2, bounded sizeof.  Under CBMC the c2mir TU is compiled with unions as structs (exact for the encoded functions).  "
+             "KNOWN FINDING (listed in known-findings.txt, 2 obligations): unnamed bit-fields raise alignment / take a whole unit.  The copying "
+             "code emitted by gen() for by-value aggregates, _Alignas and packed layouts are outside.",
+        technique=TECH + "; oracle cross-checked against gcc natively"),
 }
 
 NOT_APPLICABLE = {
